@@ -1135,6 +1135,10 @@ func (x *Exec) mapLookup(fr *Frame, m VRef, key Value, elem types.Type, p token.
 }
 
 func (x *Exec) mapUpdate(fr *Frame, m VRef, key, val Value, p token.Pos) {
+	if key == nil {
+		// the key is undefined: every path reaching this point already panicked (e.g. method call on nil)
+		return
+	}
 	kalts, ok := expandKey(key)
 	if !ok {
 		notEncodable("map update with symbolic key %s at %s", describe(key), x.framePos(fr, p))
